@@ -42,6 +42,11 @@ def drop_blocks(e):
 def run(run):
     prog = run.prog
     f2n = prog.method("fragments_to_node", r"cell_buffer::CellBuffer$")
+    if f2n:
+        # single-use private helpers of the node builder (e.g. the leading children extracted into a function) are
+        # spliced back, so that the switch rules see one body
+        inl = prog.inline_single_use_helpers(f2n, skip=r"::(style|get_defs|legend_css)$")
+        run.record("inlined_helpers", [short(x) for x in inl])
     if not f2n:
         run.missing("C18.E1", "CellBuffer::fragments_to_node")
         return
